@@ -1,5 +1,5 @@
 """C01 -- reconciliation converges to the hook's desired children, then goes quiet."""
-from props import sync_level
+from props import sync_level, all_families
 from plan_conv import CONV_PLAN
 
 MANIFEST = dict(
@@ -13,4 +13,4 @@ MANIFEST = dict(
 
 
 def run(scr, tier, replay_file):
-    return sync_level(scr, tier, "C01", "C01_", CONV_PLAN, replay_file)
+    return sync_level(scr, tier, "C01", "C01_", all_families(CONV_PLAN), replay_file)
